@@ -635,14 +635,16 @@ class ISO8601Sequence(SequenceBase):
                 (self.recurrence.end_point is not None or
                  self.recurrence.max_point is not None))):
             curr = None
-            prev = None
-            for recurrence_iso_point in self.recurrence:
-                prev = curr
-                curr = recurrence_iso_point
-            ret = ISO8601Point(str(curr))
-            if self.exclusions and ret in self.exclusions:
-                return ISO8601Point(str(prev))
-            return ret
+            for curr in self.recurrence:
+                pass
+            # Step back from the last point of the recurrence until a point
+            # is found that is not excluded (there may be several excluded
+            # points in a row, or nothing left at all).
+            while curr is not None:
+                ret = ISO8601Point(str(curr))
+                if not self.exclusions or ret not in self.exclusions:
+                    return ret
+                curr = self.recurrence.get_prev(curr)
         return None
 
     def __eq__(self, other):
